@@ -39,7 +39,8 @@ def run(ctx, w):
     ctx.decided = ["V1 origin mode is not consulted by relative movers (incl. RI)", "V2 movers write only the cursor position and the wrap-pending flag",
                    "V3 default operands (0/missing = 1; DECSTBM bottom = rows)", "V4 DECSTBM/DECOM home the cursor after the change on every path",
                    "V5 DECSTBM applies margins only under strict top < bottom < rows", "V6 margins are written only by DECSTBM/resets/resize; a height change resets both, a width-only change none",
-                   "V7 every cursor command clears wrap-pending on every path", "V8 vertical moves clamp to the margin or the screen edge depending on a strict comparison with the margin"]
+                   "V7 every cursor command clears wrap-pending on every path", "V8 vertical moves clamp to the margin or the screen edge depending on a strict comparison with the margin",
+                   "V9 absolute row addressing is origin-relative and clamped within the (origin-aware) margins", "V10 every row/column handed to the cursor setters is bounded by the screen", "W10 a line feed scrolls iff on the bottom margin, moves down only below the last-row guard"]
     ctx.not_decided = ["the distance arithmetic itself (that the cursor moves exactly n)", "tab-stop search semantics (C18)"]
 
     om = ("arg1", R["origin_mode"])
@@ -115,6 +116,11 @@ def run(ctx, w):
     margin_rules(ctx, w, S, R)
     wrap_pending_rule(ctx, w, S, R)
     clamp_rules(ctx, w, S, R)
+    addressing_rules(ctx, w, S, R)
+    # LF/IND/NEL/RI "when not on a margin": the move-down-or-scroll decision (shared with C06.W10)
+    from rules import c06
+    up, down = c06.scroll_prims(w, S)
+    c06.linefeed_rule(ctx, w, S, R, up)
 
 
 def eval_fn(hb, env):
@@ -400,3 +406,151 @@ def clamp_rules(ctx, w, S, R):
         if not done:
             ctx.missing_anchor("V8", "margin-aware clamp for Function::%s" % v)
     ctx.floor("V8", 10, "vertical clamp obligations")
+
+
+# ---- V9 / V10 -------------------------------------------------------------------------------------
+def origin_fns(w, S, R):
+    """(top_fn, bottom_fn): pure helpers returning {0 | top_margin} and {rows-1 | bottom_margin} chosen by origin mode."""
+    E = w.E
+    top = bottom = None
+    rows_t = ("load", ("arg1", R["rows"]))
+    for fn in sorted(S.terminal_scope | {f for f in w.bodies if S._impl_of(f) == S.term_ty}):
+        fo = w.facts.fns.get(fn, {})
+        if (fo.get("output") or {}).get("s") != "usize" or len(fo.get("inputs", [])) != 1 or E.summaries[fn].W:
+            continue
+        if ("arg1", R["origin_mode"]) not in E.summaries[fn].R:
+            continue
+        b = w.body(fn)
+        T = w.terms(fn)
+        vals = set()
+        for bl in b.normal_blocks():
+            for i, st in enumerate(b.blocks[bl]["stmts"]):
+                if st["k"] == "assign" and st["place"]["local"] == 0 and not st["place"]["proj"]:
+                    vals.add(shared.norm_term(T.rvalue(st["rv"], (bl, i))))
+        if vals == {("const", 0), ("load", ("arg1", R["top_margin"]))}:
+            top = fn
+        if vals == {("binop", "Sub", rows_t, ("const", 1)), ("load", ("arg1", R["bottom_margin"]))}:
+            bottom = fn
+    return top, bottom
+
+
+def setters(w, S, R):
+    """(row setter, col setter): terminal methods (self, usize) that assign their parameter to cursor.row / cursor.col."""
+    cur = R["cursor"]
+    row = col = None
+    for fn in sorted(w.bodies):
+        if S._impl_of(fn) != S.term_ty:
+            continue
+        fo = w.facts.fns.get(fn, {})
+        if [i["s"] for i in fo.get("inputs", [])][1:] != ["usize"]:
+            continue
+        for f2, pt, p, t in w.assign_sites({fn}, lambda p: p in (("arg1", cur, "row"), ("arg1", cur, "col"))):
+            if WD.strip_names(t) == ("load", ("arg2",)):
+                if p[2] == "row":
+                    row = fn
+                else:
+                    col = col or fn
+    return row, col
+
+
+def addressing_rules(ctx, w, S, R):
+    E = w.E
+    cur = R["cursor"]
+    row_t, rows_t, cols_t = ("load", ("arg1", cur, "row")), ("load", ("arg1", R["rows"])), ("load", ("arg1", R["cols"]))
+    top_fn, bottom_fn = origin_fns(w, S, R)
+    rset, cset = setters(w, S, R)
+    ctx.rule("V9", "absolute row addressing (CUP/HVP/VPA): row := min(max(top' + row, top'), bottom') with top'/bottom' the origin-aware margins")
+    if not (top_fn and bottom_fn and rset and cset):
+        ctx.missing_anchor("V9", "origin-aware margin helpers / cursor setters", "(top=%s bottom=%s row=%s col=%s)" % (top_fn, bottom_fn, rset, cset))
+        return
+    topc = ("call", top_fn, (("ref", False, ("load", ("arg1",))),))
+    botc = ("call", bottom_fn, (("ref", False, ("load", ("arg1",))),))
+    done = False
+    for v in ("Cup", "Vpa"):
+        for h in sorted(w.handler_reach(v)):
+            if not any(cs.callee in (top_fn, bottom_fn) for cs in E.call_sites(h)):
+                continue
+            T = w.terms(h)
+            for cs in E.call_sites(h, rset):
+                t = shared.norm_term(T.operand(cs.term["args"][1], cs.point))
+                want = ("min", botc, ("max", ("binop", "Add", topc, ("load", ("arg2",))), topc))
+                alt = tuple(sorted(want[1:], key=repr))
+                ok = t[0] == "min" and set(t[1:]) == set(want[1:])
+                if not ok and t[0] == "call" and t[1].endswith("::clamp"):
+                    ok = t[2] == (("binop", "Add", topc, ("load", ("arg2",))), topc, botc)
+                done = True
+                ctx.check(ok, "V9", "%s:%s" % (v, h), "%s addresses row %s; in origin mode the row must be relative to and clamped within the scroll region, otherwise clamped to the screen: min(max(top' + row, top'), bottom')" % (h, w.tstr(h, t)),
+                          loc=w.site_loc(cs), sample={"function": v, "row": w.tstr(h, t)})
+    if not done:
+        ctx.missing_anchor("V9", "row computation of absolute addressing")
+
+    ctx.rule("V10", "every value handed to the cursor row setter is provably < rows and every column <= cols (== cols only when parking for a pending wrap)")
+    n = 0
+    for f in sorted(S.terminal_scope):
+        T = w.terms(f)
+        for cs in E.call_sites(f):
+            if cs.callee not in (rset, cset):
+                continue
+            t = shared.norm_term(T.operand(cs.term["args"][1], cs.point))
+            gs = [(shared.norm_term(c), v) for c, v in w.guards_of(f, cs.point[0])]
+            n += 1
+            if cs.callee == rset:
+                ok = row_bounded(w, S, R, t, gs, top_fn, bottom_fn)
+                ctx.check(ok, "V10", "%s:%s" % (f, shared.site_key(w, f, cs.point)),
+                          "%s sets the cursor row to %s, which nothing bounds by the screen height (guards: %s): the cursor can leave the screen (row == rows) and the next print indexes out of range" %
+                          (f, w.tstr(f, t), [(w.tstr(f, c)[:50], v) for c, v in gs]), loc=w.site_loc(cs), sample={"fn": f, "row": w.tstr(f, t)})
+            else:
+                ok = col_bounded(w, S, R, t, gs)
+                ctx.check(ok, "V10", "%s:%s" % (f, shared.site_key(w, f, cs.point)),
+                          "%s sets the cursor column to %s, which nothing bounds by the screen width (guards: %s)" % (f, w.tstr(f, t), [(w.tstr(f, c)[:50], v) for c, v in gs]), loc=w.site_loc(cs),
+                          sample={"fn": f, "col": w.tstr(f, t)})
+    ctx.floor("V10", 15, "cursor setter call sites")
+
+
+def row_bounded(w, S, R, t, gs, top_fn, bottom_fn):
+    cur = R["cursor"]
+    row_t, rows_t = ("load", ("arg1", cur, "row")), ("load", ("arg1", R["rows"]))
+    last = ("binop", "Sub", rows_t, ("const", 1))
+    bm, tm = ("load", ("arg1", R["bottom_margin"])), ("load", ("arg1", R["top_margin"]))
+
+    def le_last(e):
+        return e in (last, bm, tm, row_t, ("const", 0)) or (e[0] == "call" and e[1] in (top_fn, bottom_fn)) or (e[0] == "binop" and e[1] == "Sub" and e[2] == row_t)
+    if le_last(t):
+        return True
+    if t[0] == "min":
+        return any(le_last(e) for e in t[1:])
+    if t[0] == "phi":
+        return all(row_bounded(w, S, R, x, gs, top_fn, bottom_fn) for x in t[1])
+    if t[0] == "cast":
+        inner = t[1]
+        if inner[0] == "max":
+            def small(e):
+                return e == ("const", 0) or (e[0] == "cast" and e[1] in (tm, row_t)) or (e[0] == "binop" and e[1] == "Sub" and e[2][0] == "cast" and e[2][1] == row_t) or \
+                    (e[0] == "phi" and all(small(y) for y in e[1])) or (e[0] == "max" and all(small(y) for y in e[1:]))
+            return all(small(e) for e in inner[1:])
+        if inner[0] == "phi":
+            return all(row_bounded(w, S, R, ("cast", y, t[2]), gs, top_fn, bottom_fn) for y in inner[1])
+    if t == ("binop", "Add", ("const", 1), row_t) or t == ("binop", "Add", row_t, ("const", 1)):
+        for c, v in gs:
+            if c == ("binop", "Lt", row_t, last) and v is True:
+                return True
+            if c[0] == "binop" and c[1] == "Lt" and c[2] in (("binop", "Add", ("const", 1), row_t), ("binop", "Add", row_t, ("const", 1))) and c[3] == rows_t and v is True:
+                return True
+            if c == ("binop", "Ge", row_t, last) and v is False:
+                return True
+    return False
+
+
+def col_bounded(w, S, R, t, gs):
+    cur = R["cursor"]
+    cols_t = ("load", ("arg1", R["cols"]))
+    if t in (("const", 0), cols_t, ("binop", "Sub", cols_t, ("const", 1))):
+        return True
+    if t[0] == "min" and any(e in (cols_t, ("binop", "Sub", cols_t, ("const", 1))) for e in t[1:]):
+        return True
+    for c, v in gs:
+        if c[0] == "binop" and c[2] == t and c[3] == cols_t and ((c[1] == "Ge" and v is False) or (c[1] == "Lt" and v is True)):
+            return True
+    if t[0] == "phi":
+        return all(col_bounded(w, S, R, x, gs) for x in t[1])
+    return False
